@@ -631,6 +631,40 @@ where
     let b = match guarded(|| erased.make_child(&mut r2, env.pop, env.selector)) { Ok(b) => b, Err(p) => return Err(Fail::new("ChildMaker/erased-form-panics", format!("{flavour}: the concrete call returned {a:?} but the erased form panicked: {p}"))) };
     compare("ChildMaker", flavour, a, b, r1.fingerprint(), r2.fingerprint())
 }
+/// A child maker without any fields, handed an *erased* selector (`Box<dyn DynSelector>`, possibly of a
+/// zero-sized selector such as `Best` or `Random`): an erased call nested inside an erased call, and boxes of
+/// zero-sized types all share one address.
+type BoxSel = Box<dyn DynSelector<PopS> + Send + Sync>;
+struct ZCm;
+impl ChildMaker<PopS, BoxSel> for ZCm {
+    type Error = CmErr;
+    fn make_child<G: Rng + ?Sized>(&self, rng: &mut G, population: &PopS, selector: &BoxSel) -> Result<Ind<R>, CmErr> {
+        let parent = selector.select(population, rng).map_err(|e| CmErr(e.to_string()))?;
+        let mut child = parent.clone();
+        child.genome = child.genome.wrapping_mul(31).wrapping_add((rng.next_u32() % 1000) as u32);
+        Ok(child)
+    }
+}
+macro_rules! dyn_cm_z {
+    ($e:ty;) => { (dyn DynChildMaker<PopS, BoxSel, $e>) };
+    ($e:ty; $($a:tt)+) => { (dyn DynChildMaker<PopS, BoxSel, $e> + $($a)+) };
+}
+struct ZCmEnv<'a> {
+    pop: &'a PopS,
+    selector: &'a BoxSel,
+    seed: u64,
+}
+fn t_cm_z<S2>(erased: &S2, flavour: &str, env: &ZCmEnv<'_>) -> Result<(), Fail>
+where
+    S2: ChildMaker<PopS, BoxSel>,
+    S2::Error: ErrView,
+{
+    let (mut r1, mut r2) = (Counting::new(env.seed), Counting::new(env.seed));
+    let Ok(a) = guarded(|| ZCm.make_child(&mut r1, env.pop, env.selector).map_err(|e| e.to_string())) else { return Ok(()) };
+    let b = match guarded(|| erased.make_child(&mut r2, env.pop, env.selector)) { Ok(b) => b, Err(p) => return Err(Fail::new("ChildMaker/erased-form-panics", format!("{flavour} (field-less child maker, erased selector): the concrete call returned {a:?} but the erased form panicked: {p}"))) };
+    compare("ChildMaker", &format!("{flavour} (field-less child maker, erased selector)"), a, b, r1.fingerprint(), r2.fingerprint())
+}
+
 #[derive(Clone, Debug, Serialize, Deserialize)]
 struct CmCase {
     sel: SelCase,
@@ -649,6 +683,16 @@ fn cm_oracle(c: &CmCase, probe: &mut Probe) -> Result<(), Fail> {
         style: c.style,
     };
     both_errors!(dyn_cm, CmErr, Cm { fail: c.fail, style: c.style }, t_cm, &env, "ChildMaker");
+    // a field-less child maker with erased (boxed) selectors, zero-sized ones included
+    for which in 0..3u8 {
+        let boxed: BoxSel = match which {
+            0 => Box::new(ec_core::operator::selector::best::Best),
+            1 => Box::new(ec_core::operator::selector::random::Random),
+            _ => Box::new(ec_core::operator::selector::tournament::Tournament::binary()),
+        };
+        let zenv = ZCmEnv { pop: &pop, selector: &boxed, seed: c.sel.seed ^ u64::from(which) };
+        both_errors!(dyn_cm_z, CmErr, ZCm, t_cm_z, &zenv, "ChildMaker");
+    }
     probe.nontrivial = !pop.is_empty();
     Ok(())
 }
